@@ -42,6 +42,9 @@ fn main() {
             }
             let mut p = hist::Profile::base("C07");
             p.unique_key = true;
+            // an idle older session open while keys are deleted and re-inserted (the index entry's delete mark must
+            // carry the deleter's id, not something derived from the oldest open transaction)
+            p.bystander = atom.as_deref() != Some("nobystander");
             p.rollback = atom.as_deref() == Some("rollback");
             p.batch = atom.as_deref() == Some("batch");
             p.multi_row_unique = atom.as_deref() == Some("multi");
